@@ -132,7 +132,7 @@ PROPS = {
     },
     "C08": {
         "lean_modules": ["TableauVerif.Props.C08", "TableauVerif.Props.C01Grid"],
-        "oracles": ["c08.twin", "c08.known"],
+        "oracles": ["c08.twin", "c08.known", "imp.grid"],
         "streams": [
             ("e2e.C08.twins", 240, 12000, 8),
             ("corr.protogen.parseHeader", 3000, 100000),
@@ -231,7 +231,7 @@ PROPS = {
     },
     "C01": {
         "lean_modules": ["TableauVerif.Props.C01", "TableauVerif.Props.C01List", "TableauVerif.Props.C01Sheet", "TableauVerif.Props.C01Grid"],
-        "oracles": ["c01.rt"],
+        "oracles": ["c01.rt", "imp.grid"],
         "streams": [
             ("e2e.C01.roundtrip", 8000, 300000),
             ("corr.confgen.tableParse", 6000, 200000),
@@ -283,7 +283,7 @@ PROPS = {
     },
     "C20": {
         "lean_modules": ["TableauVerif.Props.C20", "TableauVerif.Props.C20Civil", "TableauVerif.Props.C20Dur"],
-        "oracles": ["c20.ts", "c20.gen", "c20.dur"],
+        "oracles": ["c20.ts", "c20.gen", "c20.dur", "c20.emitz"],
         "streams": [
             ("corr.xproto.parseTime", 20000, 600000),
             ("corr.xproto.duration", 20000, 400000),
@@ -298,7 +298,7 @@ PROPS = {
     },
     "C12": {
         "lean_modules": ["TableauVerif.Props.C12", "TableauVerif.Props.C12Contig"],
-        "oracles": ["c12.range", "c12.contig", "c01.rt", "c12.refer"],
+        "oracles": ["c12.range", "c12.contig", "c01.rt", "c12.refer", "doc.parse"],
         "streams": [
             ("corr.fieldprop.range", 12000, 400000),
             ("e2e.C12.contiguity", 1200, 60000),
@@ -307,6 +307,9 @@ PROPS = {
             # the specification must be accepted with exactly their data (deduced uniqueness, contiguity, sizes)
             ("e2e.C01.roundtrip", 4000, 150000),
             ("e2e.C12.refer", 300, 12000),
+            # uniqueness in documents: the document parser model (incl. E2005 on map nodes and keyed lists) against
+            # the real one; o.doc.parse judges the clear case (a unique map stating one key text twice)
+            ("corr.confgen.docParse", 6000, 200000),
         ],
         "assumptions": [
             "modelled: fieldprop.CheckInRange (signed/unsigned integer kinds, string length), CheckMapKeySequence (signed keys), GetSize/IsFixed; float ranges answered by the implementation only (not modelled)",
